@@ -91,8 +91,14 @@ type Sim struct {
 	TimeNum       int // probability that "let time pass" is taken although tasks are ready
 	TimeDen       int
 	TimeLadder    []time.Duration
+	TimeBudget    int // at most this many "time first" decisions per run
+	timeFirsts    int
 
 	Verbose bool
+	// KeepTrace records scheduling decisions next to boundary events for the
+	// human-readable trace of a replay file.
+	KeepTrace bool
+	trace     []string
 }
 
 var cur atomic.Pointer[Sim]
@@ -157,6 +163,9 @@ func (s *Sim) Logf(format string, a ...interface{}) {
 	msg := fmt.Sprintf(format, a...)
 	s.mu.Lock()
 	s.events = append(s.events, msg)
+	if s.KeepTrace {
+		s.trace = append(s.trace, fmt.Sprintf("[%d t=%v] %s", s.step, s.Now(), msg))
+	}
 	s.mu.Unlock()
 	if s.Verbose {
 		fmt.Printf("  [%6d %12v] %s\n", s.step, s.Now(), msg)
@@ -507,9 +516,10 @@ const (
 	Budget              // step budget exhausted
 )
 
-// Step takes one scheduling decision. horizon is the simulated instant
-// (since start) past which the controller will not wait for timers.
-func (s *Sim) Step(horizon time.Duration) StepResult {
+// Step takes one scheduling decision. idle is how much simulated time may
+// pass without any task reaching a simulation point before the system is
+// declared quiescent.
+func (s *Sim) Step(idle time.Duration) StepResult {
 	for {
 		if s.step >= s.MaxSteps {
 			return Budget
@@ -529,15 +539,15 @@ func (s *Sim) Step(horizon time.Duration) StepResult {
 		}
 		s.mu.Unlock()
 		if len(ready) == 0 {
-			rem := horizon - s.Now()
-			if rem <= 0 {
+			if idle <= 0 {
 				return Idle
 			}
-			tm := time.NewTimer(rem)
+			tm := time.NewTimer(idle)
 			select {
 			case <-s.arrive:
 				tm.Stop()
 			case <-tm.C:
+				return Idle
 			}
 			continue
 		}
@@ -553,7 +563,8 @@ func (s *Sim) Step(horizon time.Duration) StepResult {
 			}
 		}
 		// "let time pass first"
-		if s.TimeNum > 0 && len(s.TimeLadder) > 0 && s.T.Bool("timefirst", s.TimeNum, s.TimeDen) {
+		if s.TimeNum > 0 && len(s.TimeLadder) > 0 && s.timeFirsts < s.TimeBudget && s.T.Bool("timefirst", s.TimeNum, s.TimeDen) {
+			s.timeFirsts++
 			d := s.TimeLadder[s.T.Choose("timeladder", len(s.TimeLadder))]
 			s.step++
 			s.noteSched("time+" + d.String())
@@ -610,7 +621,19 @@ func (s *Sim) Step(horizon time.Duration) StepResult {
 	}
 }
 
+// Trace returns boundary events interleaved with scheduling decisions.
+func (s *Sim) Trace() []string {
+	s.mu.Lock()
+	defer s.mu.Unlock()
+	return append([]string(nil), s.trace...)
+}
+
 func (s *Sim) noteSched(k string) {
+	if s.KeepTrace {
+		s.mu.Lock()
+		s.trace = append(s.trace, fmt.Sprintf("[%d t=%v] run %s", s.step, s.Now(), k))
+		s.mu.Unlock()
+	}
 	h := sha256.New()
 	h.Write(s.schedH[:])
 	h.Write([]byte(k))
@@ -629,9 +652,9 @@ func (s *Sim) ParkedKeys() []string {
 	return out
 }
 
-// Run steps until done() holds at quiescence, the horizon passes idle, or the
-// budget is exhausted.
-func (s *Sim) Run(horizon time.Duration, done func() bool) StepResult {
+// Run steps until done() holds at quiescence, nothing happens for `idle` of
+// simulated time, or the step budget is exhausted.
+func (s *Sim) Run(idle time.Duration, done func() bool) StepResult {
 	for {
 		synctest.Wait()
 		if done != nil && done() {
@@ -640,7 +663,7 @@ func (s *Sim) Run(horizon time.Duration, done func() bool) StepResult {
 		if len(s.Violations()) > 0 {
 			return Progress
 		}
-		r := s.Step(horizon)
+		r := s.Step(idle)
 		if r != Progress {
 			synctest.Wait()
 			if r == Idle && done != nil && done() {
